@@ -788,6 +788,31 @@ static void stage_scale(void) {
           } } }
 }
 
+
+/* ---- raw bit writer / reader: every short sequence of field widths --------------------------------------------------- */
+static void stage_bitio(void) {
+    mc_stage("bitio.writer-reader.all-width-sequences");
+    static const int W[] = { 1, 2, 3, 7, 8, 11, 16, 24, 31, 32, 33, 48, 64 }; int L = mc_thorough() ? 6 : 5; int idx[8];
+    for (int len = 1; len <= L; len++) { long tot = 1; for (int i = 0; i < len; i++) tot *= 13;
+        for (long code = 0; code < tot; code++) {
+            if (!mc_next()) continue;
+            long v = code; int bits = 0; for (int i = 0; i < len; i++) { idx[i] = (int)(v % 13); v /= 13; bits += W[idx[i]]; }
+            mc_desc("bitio:widths=%d,%d,%d,%d,%d,%d;n=%d", W[idx[0]], len > 1 ? W[idx[1]] : 0, len > 2 ? W[idx[2]] : 0, len > 3 ? W[idx[3]] : 0, len > 4 ? W[idx[4]] : 0, len > 5 ? W[idx[5]] : 0, len); mc_case_key(mc_mix(0x5b1, ((uint64_t)len << 40) | (uint64_t)code)); if (len >= 2) mc_nontrivial();
+            size_t nb = (size_t)(bits + 7) / 8; uint8_t* out = mc_exact(NULL, nb + 1); memset(out, 0, nb + 1); uint8_t* model = calloc(1, nb + 1); uint64_t vals[8]; int pos = 0;
+            carquet_bit_writer_t bw; carquet_bit_writer_init(&bw, out, nb);
+            for (int i = 0; i < len; i++) { int w = W[idx[i]]; uint64_t x = 0xD6E8FEB86659FD93ull * (uint64_t)(i + 1) ^ 0xDEADBEEFCAFEF00Dull; if (w < 64) x &= (1ull << w) - 1; vals[i] = x;
+                for (int b = 0; b < w; b++, pos++) if ((x >> b) & 1) model[pos >> 3] |= (uint8_t)(1u << (pos & 7));
+                if (w == 1 && (i & 1)) carquet_bit_writer_write_bit(&bw, (int)x); else if (w <= 32) carquet_bit_writer_write_bits(&bw, (uint32_t)x, w); else carquet_bit_writer_write_bits64(&bw, x, w); }
+            carquet_bit_writer_flush(&bw);
+            if (carquet_bit_writer_bytes_written(&bw) != nb) FAILF("bitio.writer.bytes-written", "%d bits written as %zu bytes, expected %zu", bits, carquet_bit_writer_bytes_written(&bw), nb);
+            else if (memcmp(out, model, nb)) FAILF("bitio.writer.bytes", "written %s, LSB-first packing of the fields is %s", mc_hex(out, nb, 24), mc_hex(model, nb, 24));
+            carquet_bit_reader_t br; carquet_bit_reader_init(&br, model, nb);
+            for (int i = 0; i < len; i++) { int w = W[idx[i]]; uint64_t g = (w == 1 && (i & 1)) ? (uint64_t)carquet_bit_reader_read_bit(&br) : w <= 32 ? carquet_bit_reader_read_bits(&br, w) : carquet_bit_reader_read_bits64(&br, w);
+                if (g != vals[i]) { FAILF("bitio.reader.values", "field %d of width %d read as %llx, packed %llx", i, w, (unsigned long long)g, (unsigned long long)vals[i]); break; } }
+            free(out); free(model);
+        } }
+}
+
 static void enumerate(void) {
     C12 = !strcmp(mc_mode(), "c12");
     if (!C12) {
@@ -804,6 +829,7 @@ static void enumerate(void) {
     stage_hybrid();
     if (!C12) stage_stream();
     stage_bitpack();
+    stage_bitio();
     stage_delta();
     stage_strings();
     stage_bss();
